@@ -43,6 +43,10 @@ T = {
  "C03": ("Static analysis of the batching, transaction-shape and flag-case clauses: every SQL statement reachable from the message commands is valid and binds exactly its placeholders for every batch size (polynomial arity, chunk discipline); each command method runs at most one mutating transaction per path; no error of a mutating transaction call is swallowed; flag lookups use lower-case keys and original-spelling flag strings are never compared case-sensitively; a flag change is announced only after the matching index write. Equality with a reference model, flag semantics per command and message bytes are not decided.",
          "Trusts go/ssa, SQLite's parser, VTA call graph.",
          "embedded-SQL arity analysis + path-count rule + error-propagation (T-NODROP) + taint-style flag-case lint + dominance", "DESIGN.md 4/C03"),
+
+ "C20": ("Static analysis: every failed AppendRegular path in Mailbox.Append reaches the recovery transaction except the size-limit edge; AppendRegular has no other caller and the APPENDUID OK is built on the nil edge from Append's own UID; the recovery mailbox name is refused (case-insensitively) before any database access in Create/Delete/Rename/AppendOnlyMailbox/Copy/Move; every removal from the recovery mailbox erases the same ids from the dedup map; a hashing failure never aborts the recovery and the dedup check precedes the insert. 'Listed exactly while non-empty' and content-hash equality are not decided.",
+         "Trusts go/ssa and the VTA call graph.",
+         "must-pass-through + who-may-call + dominance guards + pairing rule on SSA", "DESIGN.md 4/C20"),
 }
 NA_REASON = {}
 checks = []
